@@ -618,7 +618,7 @@ def PM(
 
     output.signal = op_input.signal * np.exp(1j * el_input * pi / Vpi)
 
-    if np.sum(op_input.noise):
+    if op_input.noise is not None:
         output.noise = op_input.noise * np.exp(1j * el_input * pi / Vpi)
 
     output.execution_time = toc()
